@@ -10,6 +10,7 @@ CONSTANTS
   Parts = {0}
   NoConf = NoConf
   Merged = Merged
+  Lookups = FALSE
   Static = TRUE
   PubChoices <- MCAllPubs
 SYMMETRY NodeSym
